@@ -272,6 +272,17 @@ def run(ctx):
         back = timeutils.unmarshall_time(timeutils.marshall_now(u))
         if back != u or back.utcoffset() != datetime.timedelta(0):
             problems.append('UTC round trip')
+        # the marshalled form belongs to the caller: reading it does not change it, reading it twice gives the same instant
+        for src in (u, dt):
+            form = timeutils.marshall_now(src)
+            form['second'] = rnd.choice([form['second'], 60])
+            keep = dict(form)
+            first = timeutils.unmarshall_time(form)
+            again = timeutils.unmarshall_time(form)
+            if form != keep:
+                problems.append('unmarshall_time changed its argument')
+            if first != again or (first.tzinfo is None) != (again.tzinfo is None):
+                problems.append('second unmarshall_time of one dict differs')
         d = timeutils.marshall_now(dt)
         d['second'] = 60
         if timeutils.unmarshall_time(d) != dt.replace(second=59):
